@@ -4,8 +4,23 @@
   `verifySeq` is the sequential reference of `Torrent.verify` on a torrent that passed
   `validate()`; `H` is the digest function (SHA-1 is a parameter, so "a changed byte is detected"
   carries the explicit hypothesis that `H` separates the two piece contents).
+
+  Theorems (helper lemmas live in Torf.Lemmas.Verify*):
+  * `C02_iff`                   no callback: `True` ⇔ all files good ∧ all digests match
+  * `C02_files_superset`        a content error names every file with a byte in the piece
+  * `C02_wrong_path_kind`       VerifyIsDirectoryError / VerifyNotDirectoryError
+  * `C02_callback`              with a callback: result = `SpecOk`, never raises; exactly one
+                                read/size error per bad file, one content error per mismatching
+                                data piece, nothing else; progress arguments
+  * `C02_nocb_first_exception`  no callback: raises the first exception the callback would get
+  * `C02_nocb_documented`       no callback: `True`, or a documented error (never `False`)
+  * `C02_bad_files_only`        good files unchanged ⇒ only the bad files are reported
+  * `C02_single_bad_file`       one missing / mis-sized file ⇒ exactly that error
+  * `C02_single_flip`           one changed byte ⇒ exactly the content error of its piece
+  Hypotheses: `0 < L`, a proper path kind, `pieces` of the right length, and (as in C10) no *bad*
+  zero-length entry (`NoBadEmpty`, finding D10a).
 -/
-import Torf.Lemmas.VerifySingle
+import Torf.Lemmas.VerifyFlip
 namespace Torf.C02
 open Torf Torf.Missing Torf.Verify
 
@@ -403,5 +418,74 @@ example : NoBadEmpty (exOrig.map List.length) [some [1, 2], none, some [], none]
       ([some [1, 2], none, some [], none] : List (Option (List Nat))).getD k none
         = some exOrig[k]) := by
   decide
+
+/-- **One changed byte.** The torrent was created from `orig`; on disk every file has the
+    recorded size and the content is `orig` except for the byte at stream position `p`; `i` is
+    the piece that holds position `p`, and `H` separates the two contents of piece `i`
+    (`hsep` — for SHA-1 this is collision resistance).  Then without a callback `verify` raises
+    the VerifyContentError of piece `i`; with a callback it returns `False` and that error is the
+    only exception handed to the callback, exactly once, in a call with `piece_index = i`; and
+    the file that owns position `p` (it exists) is among the files the error names. -/
+theorem C02_single_flip (H : List α → δ) (L : Nat) (hL : 0 < L) (orig : List (List α))
+    (disk : List (Option (List α))) (single pathIsDir : Bool) (hp : ProperPath single pathIsDir)
+    (hgood : AllGood (orig.map List.length) disk = true)
+    (p : Nat) (b : α) (hlt : p < orig.flatten.length)
+    (hflip : diskStream (orig.map List.length) disk = orig.flatten.set p b)
+    (hsep : ((chunks L (diskStream (orig.map List.length) disk))[p / L]?).map H ≠
+      ((chunks L orig.flatten)[p / L]?).map H) :
+    let sizes := orig.map List.length
+    let stored := (chunks L orig.flatten).map H
+    let i := p / L
+    let err := VErr.content i (corruptFiles L sizes i)
+    let cb := verifySeq H L sizes disk stored true single pathIsDir
+    (verifySeq H L sizes disk stored false single pathIsDir).1 = .error err ∧
+    cb.1 = .ok false ∧
+    excsOf cb.2 = [err] ∧
+    (∀ c ∈ cb.2, c.exc = some err → c.piece = i) ∧
+    (∀ j, j < sizes.length → pos sizes j ≤ p → p < pos sizes j + Missing.sizeOf sizes j →
+      j ∈ corruptFiles L sizes i) ∧
+    (∃ j, j < sizes.length ∧ pos sizes j ≤ p ∧ p < pos sizes j + Missing.sizeOf sizes j) := by
+  intro sizes stored i err cb
+  have hlen : stored.length = nPieces L sizes.sum := length_stored H L hL orig
+  have hall : ∀ k < sizes.length, fileError sizes disk k = none := by
+    intro k hk
+    have := List.all_eq_true.mp hgood k (List.mem_range.mpr hk)
+    simpa using this
+  have hyp := noBadEmpty_of_good sizes disk hall
+  obtain ⟨hres, hfile, hcont, hkinds, hpiece, _, _⟩ :=
+    C02_callback H L hL sizes disk stored single pathIsDir hp hyp hlen
+  have hnocb := C02_nocb_first_exception H L hL sizes disk stored single pathIsDir hp hyp hlen
+  rw [badFiles_eq_nil_of_good sizes disk hgood, List.map_nil] at hfile
+  rw [mismatches_flip H L hL orig disk hgood p b hlt hflip hsep] at hcont
+  have hexcs : excsOf cb.2 = [err] :=
+    eq_of_filters _ _ _ _ hcont hfile (fun e he => (hkinds e he).symm)
+  refine ⟨?_, ?_, hexcs, ?_, ?_, ?_⟩
+  · rw [hnocb]
+    show (match (excsOf cb.2).head? with
+        | some e => VResult.error e
+        | none => VResult.ok true) = _
+    rw [hexcs]; rfl
+  · show cb.1 = _
+    rw [hres, specOk_flip H L orig disk p hsep]
+  · intro c hc he
+    exact hpiece c hc _ _ he
+  · intro j hj h1 h2
+    exact C02_files_superset L hL sizes j i hj (owner_overlaps L hL sizes j p h1 h2)
+  · exact exists_owner sizes p (by rw [sum_map_length]; exact hlt)
+
+/-! non-vacuity of `C02_single_flip` (byte 3 of the stream, in piece 1, owned by file 1) and the
+    resulting callback trace -/
+example : AllGood (exOrig.map List.length) [some [1, 2], some [3, 9, 5, 6], some [], some [7, 8]]
+      = true ∧ 3 < exOrig.flatten.length ∧
+    diskStream (exOrig.map List.length) [some [1, 2], some [3, 9, 5, 6], some [], some [7, 8]]
+      = exOrig.flatten.set 3 9 := by decide
+example : ((chunks 3 ([1, 2, 3, 9, 5, 6, 7, 8] : List Nat))[3 / 3]?).map (fun p => p) ≠
+    ((chunks 3 [1, 2, 3, 4, 5, 6, 7, 8])[3 / 3]?).map (fun p => p) := by
+  simp [chunks_cons_of_ne]
+example : verifySeq (fun p : List Nat => p) 3 (exOrig.map List.length)
+    [some [1, 2], some [3, 9, 5, 6], some [], some [7, 8]] [[1, 2, 3], [4, 5, 6], [7, 8]]
+    true false true =
+    (.ok false, [⟨1, 0, some [1, 2, 3], none⟩, ⟨2, 1, some [9, 5, 6], some (.content 1 [1])⟩,
+                 ⟨3, 2, some [7, 8], none⟩]) := by decide
 
 end Torf.C02
